@@ -14,7 +14,7 @@ cleanup() { git -C /repo worktree remove --force "$W/wt" >/dev/null 2>&1; rm -rf
 trap cleanup EXIT
 git -C /repo worktree add --detach "$W/wt" HEAD >/dev/null 2>&1 || { echo "SEEDED $1 $ID: cannot create worktree"; exit 3; }
 DEST=$(python3 -c "import json,sys; print(json.load(open('$D/meta.json')).get('demo_file_dest',''))")
-CMD=$(python3 -c "import json,sys; print(json.load(open('$D/meta.json')).get('demo_cmd',''))")
+CMD=$(python3 -c "import json,sys,re; print(re.split(r'\\s{2,}\\(', json.load(open('$D/meta.json')).get('demo_cmd',''))[0])")
 DEMO=$(ls "$D"/demo*_test.go "$D"/*_test.go 2>/dev/null | head -1)
 [ -n "$DEST" ] && [ -n "$DEMO" ] && mkdir -p "$(dirname "$W/wt/$DEST")" && cp "$DEMO" "$W/wt/$DEST"
 conf=yes
